@@ -166,7 +166,11 @@ def atEnd (p : Params) (b : Book) (fin : Option Final) (e : EndInfo) : List Viol
 
 def check (p : Params) (tr : List Obs) (e : EndInfo) : List Viol :=
   let (_, b, vs) := foldCheck () onEvent tr
-  vs ++ atEnd p b (finalOf tr) e ++ droppedAtRest tr b e
+  let spin := if !e.quiescent && !e.crashed && !b.crashed then
+      (b.jobs.filter (fun (_, j) => accepted j && !mayBeGone j && j.entered == 0)).map
+        (fun (k, _) => s!"accepted job {k} never started: the library spins without reaching quiescence (step budget used up)")
+    else []
+  vs ++ atEnd p b (finalOf tr) e ++ droppedAtRest tr b e ++ spin
 end C01
 
 -- ===================================================================== C02
@@ -323,10 +327,10 @@ def onEvent (_ : Unit) (b : Book) (o : Obs) (_ : Book) : Unit × List Viol :=
 
 def atEnd (p : Params) (b : Book) (fin : Option Final) (e : EndInfo) : List Viol :=
   if !e.quiescent || e.crashed || b.crashed then [] else
-  -- a running worker at rest with nothing pending and nothing executing has finished, cancelled or
-  -- rejected every job and every batch item there ever was
+  -- a running worker at rest (quiescent: nothing will ever happen again) with no worker function
+  -- executing will never finish anything more: whoever still waits, waits forever
   let drained := match fin with
-    | some f => f.status == some .running && f.counts.pending == 0 && b.inflight == 0 && !p.gate
+    | some f => f.status == some .running && b.inflight == 0 && !p.gate
     | none => false
   b.openCalls.foldl (fun vs c =>
     match c.2 with
@@ -477,7 +481,10 @@ namespace C03
 def check (p : Params) (tr : List Obs) (e : EndInfo) : List Viol :=
   let (_, b, _) := foldCheck () (fun _ _ _ _ => ((), [])) tr
   if e.crashed || b.crashed then ["process crashed (a goroutine died)"] else
-  if !e.quiescent then [] else
+  if !e.quiescent then
+    -- the step budget (far above what any generated program needs) was used up: some goroutine spins
+    let unfinished := (b.jobs.filter (fun (_, j) => accepted j && !mayBeGone j && j.exited == 0)).length
+    [s!"no quiescence within the step budget: a library goroutine spins (livelock); {unfinished} accepted job(s) unfinished"] else
   match finalOf tr with
   | none => if b.inflight == 0 || !p.gate then ["the final observation could not be taken: an internal lock is held forever (deadlock)"] else []
   | some f =>
